@@ -184,6 +184,20 @@ pub fn run(cx: &mut Ctx) {
         if s != expect_s {
             cx.oracle_fail("C05", &line2, &format!("code {} prints as {} instead of {}", b, s, expect_s));
         }
+        // the text form does not depend on the caller's format specification (the Display impl
+        // writes the two numbers with its own specs); get_code() gives the same text
+        let specs: [String; 9] = [format!("{:>6}", c), format!("{:<8}", c), format!("{:+}", c), format!("{:04}", c), format!("{:^9}", c), format!("{:#}", c), format!("{:.1}", c), format!("{:08.3}", c), {
+            let mut h = Header::new();
+            h.code = c;
+            h.get_code()
+        }];
+        for (k, t) in specs.iter().enumerate() {
+            let lk = format!("TBL fmtspec {} {}", k, b);
+            cx.case(&lk, &hex(t.as_bytes()));
+            if *t != expect_s {
+                cx.oracle_fail("C05", &lk, &format!("code {} prints as {:?} instead of {} under format specification #{}", b, t, expect_s, k));
+            }
+        }
         let line3 = format!("TBL parse {}", hex(s.as_bytes()));
         let parsed = guarded(|| {
             let mut h = Header::new();
